@@ -27,6 +27,7 @@ Local work-around (told to the lead): the clang `fuzz` flavour of vf/runner.py l
 adjustment.  This module registers an in-process flavour `fuzz11` = fuzz + that flag (build dir .build/fuzz11).
 """
 import base64
+import itertools
 import json
 import math
 import os
@@ -222,7 +223,7 @@ class Lint:
                     elif len(toks) != dim * (band + 1) - band * (band + 1) // 2 or \
                             not all(RX_FLOAT.fullmatch(x) for x in toks):
                         self.hard.append(("cov-mat-elements:%s" % parent, st["line"]))
-            if t in ("height-differences", "coordinates", "vectors") and st["obs"] == 0:
+            if t in CLUSTERS and st["obs"] == 0:
                 self.soft.append("min-occurs:%s" % t)
             if t in ("coordinates", "vectors") and not st["cov"]:
                 self.soft.append("min-occurs:%s/cov-mat" % t)
@@ -406,12 +407,11 @@ class Drv:
         self.ck, self.F = ck, F
         self.exe = runner.binpath("san", "parsedrv")
         self.trans = {}
-        self.seq = 0
+        self.seq = itertools.count(1)
         self.hang_keys = {}     # key -> count
 
     def _stream(self, recs):
-        self.seq += 1
-        path = os.path.join(self.ck.tmp, "stream%d.bin" % self.seq)
+        path = os.path.join(self.ck.tmp, "stream%d.bin" % next(self.seq))
         with open(path, "wb") as f:
             for r in recs:
                 f.write(("@ %s %s %d %s\n" % (r.id, r.kind, len(r.doc), r.mode)).encode())
@@ -527,6 +527,18 @@ def nlines(doc):
     return doc.count(b"\n") + 1
 
 
+def elem_at_line(doc, line, lint=None):
+    """(parent, tag) of the element that starts on this line"""
+    if lint is not None and line in lint.where:
+        return lint.where[line]
+    ls = doc.split(b"\n")
+    if 1 <= line <= len(ls):
+        m = re.search(rb"<([A-Za-z][\w.-]*)", ls[line - 1])
+        if m:
+            return ("?", m.group(1).decode())
+    return ("?", "?")
+
+
 def slug(msg, n=6):
     msg = re.sub(r"\\x[0-9a-f]{2}", "", msg or "")
     msg = re.sub(r"\"[^\"]*\"|'[^']*'|=.*$|[-+]?\d[\d.eE+-]*", " ", msg)
@@ -562,7 +574,7 @@ def judge_parse(ck, F, rec, o, stage="parse", lint=None, expect=None):
         L = lint or Lint(doc)
         m = re.match(r"rec=(-?\d+)@(\d+):\[(.*)\]", o.rec)
         ln = int(m.group(2)) if m else 0
-        par, tag = L.where.get(ln, ("?", "?"))
+        par, tag = elem_at_line(doc, ln, L)
         F.add("silent-accept:recorded-error-not-thrown:%s:%s/%s" % (rec.kind, par, tag),
               "the parser recorded the error [%s] on line %d but xml_parse() returned normally; %d handler calls ran "
               "outside the error state afterwards" % (m.group(3) if m else o.rec, ln, o.left), wit())
@@ -584,11 +596,10 @@ class GL:
     def __init__(self, ck):
         self.ck = ck
         self.exe = runner.binpath("san", "gama-local")
-        self.n = 0
+        self.n = itertools.count(1)
 
     def run(self, doc, args, stdin=False, timeout=WATCHDOG, abrt=False, missing_input=False):
-        self.n += 1
-        d = os.path.join(self.ck.tmp, "gl%d-%d" % (os.getpid(), self.n))
+        d = os.path.join(self.ck.tmp, "gl%d" % next(self.n))
         os.makedirs(d, exist_ok=True)
         inp = os.path.join(d, "in.gkf")
         if not missing_input:
@@ -596,7 +607,7 @@ class GL:
                 f.write(doc)
         files, argv = {}, []
         for a in args:
-            if isinstance(a, str) and a.startswith("@"):
+            if isinstance(a, str) and a.startswith("@") and a != "@@":
                 k = a[1:]
                 p = os.path.join(d, "out%d.%s" % (len(files), k))
                 files.setdefault(k, p)
@@ -868,7 +879,7 @@ TXT = {   # non-ASCII sample text per declared encoding: (python codec, text for
 }
 
 
-def gen_valid(seed, i, small=False):
+def gen_valid(seed, i, avoid=()):
     """-> (bytes, meta).  meta['features'] = what of the documented grammar this document exercises;
     meta['parse_only'] = True when adjustability is not part of the claim (orientation attribute, see DESIGN §5 #17)"""
     rng = np.random.default_rng([seed, i, 1101])
@@ -978,9 +989,10 @@ def gen_valid(seed, i, small=False):
            ("encoding", ["utf-8", "iso-8859-2", "cp-1250"])]
     for k, vals in opt:
         if rng.uniform() < 0.22:
-            if k == "angles" and par.get("angular") is not None:
+            v = str(rng.choice(vals))
+            if (k == "angles" and par.get("angular") is not None) or ("parameters@" + k) in avoid:
                 continue
-            par.set(k, str(rng.choice(vals)))
+            par.set(k, v)
             F.add("parameters@" + k)
     if par.get("ellipsoid") is not None and par.get("latitude") is None and rng.uniform() < 0.5:
         par.set("latitude", "49.9")
@@ -1143,9 +1155,9 @@ def ref_events(ev):
     for k, e in enumerate(ev):
         if e == CLOSE:
             t, st = stack.pop()
-            if t in ("height-differences", "coordinates", "vectors") and st["obs"] == 0:
-                soft.add("min-occurs")
-            if t in ("coordinates", "vectors") and not st["cov"]:
+            if t in CLUSTERS and st["obs"] == 0:
+                soft.add("min-occurs")        # XSD: at least one dh / point / vec; an <obs> without observations is
+            if t in ("coordinates", "vectors") and not st["cov"]:      # formally allowed but describes nothing: not judged
                 soft.add("min-occurs")
             if t == "gama-local" and st["net"] != 1:
                 soft.add("occurs:network")
@@ -1173,7 +1185,7 @@ def ref_events(ev):
         stack.append([e, dict(obs=0, cov=False, net=0)])
     if stack:
         for t, st in stack:          # what closing the open elements will reveal
-            if t in ("height-differences", "coordinates", "vectors") and (st["obs"] == 0 or (t != "height-differences" and not st["cov"])):
+            if t in CLUSTERS and (st["obs"] == 0 or (t in ("coordinates", "vectors") and not st["cov"])):
                 soft.add("min-occurs")
             if t == "gama-local" and st["net"] != 1:
                 soft.add("occurs:network")
@@ -1375,8 +1387,7 @@ def w1_valid(X):
             ck.cls(("w1", f, c))
         ck.case()
         if c in ("refused-valid",):
-            L = Lint(r.doc)
-            par, tag = L.where.get(o.line, ("?", "?"))
+            par, tag = elem_at_line(r.doc, o.line, Lint(r.doc))
             att = next((a for a in ATTRS.get(tag, {}) if re.search(r"(^|\W)%s(\W|$)" % re.escape(a), o.msg or "")), None)
             feat = ("%s@%s" % (tag, att)) if att else (tag if o.code == -1 else "xml:" + slug(o.msg, 4))
             if o.code > 0:
@@ -1387,6 +1398,24 @@ def w1_valid(X):
         elif c == "accepted":
             todo.append(r)
     ck.sample(dict(workload=1, features=docs[0][1]["features"], bytes=len(docs[0][0])))
+    # documents refused because of an (already reported) feature are regenerated without it, so that the rest of what
+    # they exercise is still observed
+    bad = set(k.split(":", 1)[1] for k in F.best if k.startswith("reject-valid:parameters@"))
+    if bad:
+        again = [Rec(r.id + "b", "gkf", "lines", *gen_valid(X.seed, r.meta["index"], avoid=bad)) for r in recs
+                 if res[r.id].kind == "refused" and set(r.meta["features"]) & bad]
+        res2 = X.drv.run(again, "w1 valid")
+        for r in again:
+            c = judge_parse(ck, F, r, res2[r.id], expect="valid")
+            ck.count("w1 parser (regenerated without %s): %s" % ("/".join(sorted(bad)), c))
+            if c == "accepted":
+                todo.append(r)
+            elif c == "refused-valid":
+                o = res2[r.id]
+                par, tag = elem_at_line(r.doc, o.line, Lint(r.doc))
+                F.add("reject-valid:%s" % (tag if o.code == -1 else "xml:" + slug(o.msg, 4)), "a document of the documented grammar is "
+                      "refused on line %d: [%s] (features %s)" % (o.line, o.msg, r.meta["features"]),
+                      mkwit("parse", r.doc, kind="gkf", mode="lines", expect="valid", meta=r.meta))
 
     def work(r):
         outs = ["--xml", "@xml", "--text", "@text"]
@@ -1492,7 +1521,7 @@ def w2_sequences(X):
     frontier = sorted(set(p for p in ok if len(p) == exhaustive))
     cap = X.n(60000, 1500000)
     level = exhaustive
-    while frontier and level < X.n(6, 8):
+    while frontier and level < X.n(9, 12):
         level += 1
         recs = []
         nxt = []
